@@ -801,6 +801,60 @@ def mfr_history(chk, program, consts, sf, cf, P, ID):
             chk.check(want == got, 'MFR-GUARD', f"history::{mode}=garmin::{name}", file=DEC, line=fn.lineno, func='_decode', expected='returned' if want else 'withheld',
                       found='returned' if got else 'withheld', detail='' if want == got else 'the manufacturer filter does not follow the latest claim of the address')
 
+def _isoname_semantic(program, d):
+    """IsoName.__init__ interpreted on stand-in claims in which every field carries its own value: -> ({attribute: (wanted, got)}, []) for the
+    attributes named after a claim field (plus `name`), None when not interpretable"""
+    from . import absint as A
+    from .wire import is_logger
+    init = program.fn('message', 'IsoName.__init__')
+    cls = program.cls('message', 'NMEA2000Message')
+    methods = {n.name: n for n in cls.body if isinstance(n, ast.FunctionDef)}
+    def snake(s):
+        return ''.join(('_' + ch.lower()) if ch.isupper() else ch for ch in s)
+    def plain(v):
+        if isinstance(v, A.AInt):
+            return v.v
+        if isinstance(v, A.AStr):
+            return v.literal()
+        return v if isinstance(v, (bool, int, str)) or v is None else repr(v)
+    out = {}
+    try:
+        for rnd, aac in enumerate(('Yes', 'No')):
+            fl, want = [], {}
+            for i, f_ in enumerate(d.fields):
+                if f_.dbid is None:
+                    continue
+                if f_.type in ('NUMBER', 'MMSI'):
+                    val = (3 + i + 7 * rnd) % (1 << min(f_.bit_length, 8))
+                    v_ = A.AInt(val); want[f_.dbid] = val
+                else:
+                    txt = aac if f_.dbid == 'arbitraryAddressCapable' else f"{f_.dbid}#{rnd}"
+                    v_ = A.AStr([('lit', txt)]); val = i + 1; want[f_.dbid] = txt
+                fl.append(A.AObj(id=A.AStr([('lit', f_.dbid)]), value=v_, raw_value=A.AInt(val)))
+            msg = A.AObj(PGN=A.AInt(d.pgn), id=A.AStr([('lit', d.id)]), fields=A.AList(fl))
+            menv_ = A.ModuleEnv(program.mod('message').tree)
+            for mn_, md_ in methods.items():
+                if mn_ not in msg.attrs and not mn_.startswith('__'):
+                    msg.attrs[mn_] = A.AFunc(md_, None, menv_, msg)
+            def hook(it, call, env, msg=msg):
+                f = call.func
+                if isinstance(f, ast.Attribute) and isinstance(f.value, ast.Name) and env.get(f.value.id) is msg and f.attr in methods:
+                    return it.call_function(methods[f.attr], [msg] + [it.expr(a, env) for a in call.args], {k.arg: it.expr(k.value, env) for k in call.keywords})
+                return NotImplemented
+            o = A.AObj()
+            A.Interp(hook=hook, skip=is_logger, methods=methods, module=menv_).call_function(init, [o, msg, A.AInt(12345 + rnd)])
+            for fid, w in want.items():
+                attr = snake(fid)
+                if fid in ('deviceInstanceUpper', 'deviceInstanceLower') or attr not in o.attrs:
+                    continue          # the composition has its own clause; fields the identity does not keep (reserved bits) are not demanded
+                if fid == 'arbitraryAddressCapable':
+                    w = (w == 'Yes')
+                out[f"{attr}@{rnd}"] = (w, plain(o.attrs[attr]))
+            out[f"name@{rnd}"] = (12345 + rnd, plain(o.attrs.get('name')))
+    except (A.Unknown, A.RaiseSignal, AttributeError, TypeError, KeyError, RecursionError):
+        return None
+    return out, []
+
 def _isoname_device_instance(program, d, lower_field):
     """IsoName.__init__ interpreted (absint) on claims whose deviceInstanceUpper / deviceInstanceLower are concrete: -> list of mismatches, None when
     not interpretable"""
@@ -914,4 +968,14 @@ def isoname_ids(chk, program):
                       expected=f"compared with a name of lookup {f.lookup if f else '?'} ({names})", found=[x[1] for x in lit])
         if attr == 'name':
             chk.check(v == ('param', params[2]), 'ISONAME-IDS', 'IsoName.name', file=M, line=line, expected='the 64-bit NAME handed in', found=show(v), nontrivial=False)
+    if n < 9:
+        # the constructor does not read the fields in the recognised spelling (a table of field ids, a loop): decided by interpreting it on
+        # stand-in claims whose fields all carry different values
+        sem_ = _isoname_semantic(program, d)
+        if sem_ is not None:
+            cmp_, bad_ = sem_
+            for attr, (want, got) in sorted(cmp_.items()):
+                n += 1
+                chk.check(want == got, 'ISONAME-IDS', f"IsoName.{attr}::interpreted", file=M, line=fn.lineno, func='IsoName.__init__',
+                          expected=f"the value of the claim field of the same name: {want!r}", found=repr(got))
     chk.floor('isoname_field_reads', n, 9)
